@@ -21,8 +21,24 @@ ENTRIES = ["ui.Model", "python.compile", "python.compile_ekf", "cpp.compile", "c
 CONTAINERS = {"set": set, "list": list, "tuple": tuple, "frozenset": frozenset}
 
 
-def present(mods, sc, container_name="set"):
-    """Present the (possibly faulted) definition to the five entry points.  -> {entry: [outcome, info]}"""
+def _args(symtab, d, ui):
+    """(calibration map, process noise, sensor models, sensor noises) of definition JSON d over the symbols of symtab"""
+    calmap = named(d["calmap"])
+    pnoise = named(d["pnoise"])
+    sensors = {k: named(v) for k, v in named(d["sensors"]).items()}
+    snoise = {k: named(v) for k, v in named(d["snoise"]).items()}
+    ppairs = named(d.get("ppairs", {}))
+    cm = {symtab[n]: fl(q) for n, q in calmap.items()}
+    pn = {(symtab[n] if n not in ppairs else (symtab[ppairs[n][0]], symtab[ppairs[n][1]])): fl(q) for n, q in pnoise.items()}
+    sm = {k: {r: to_sympy(t, symtab) for r, t in m.items()} for k, m in sensors.items()}
+    sn = {k: {r: fl(q) for r, q in m.items()} for k, m in snoise.items()}
+    return cm, pn, sm, sn
+
+
+def present(mods, sc, container_name="set", warm=None):
+    """Present the (possibly faulted) definition to the five entry points.  -> {entry: [outcome, info]}
+    warm: the VALID definition of the same base.  When the fault does not touch what ui.Model is built from, the valid
+    definition is compiled first on the very same ui.Model object -- a verdict must not be remembered on the object."""
     ui, python, cpp = mods["ui"], mods["python"], mods["cpp"]
     d = sc["def"]
     container = CONTAINERS[container_name]
@@ -52,6 +68,19 @@ def present(mods, sc, container_name="set"):
     sm = {k: {r: to_sympy(t, symtab) for r, t in m.items()} for k, m in sensors.items()}
     sn = {k: {r: fl(q) for r, q in m.items()} for k, m in snoise.items()}
     cfg = {"common_subexpression_elimination": False}
+    if warm is not None and all(json.dumps(warm[f], sort_keys=True) == json.dumps(d[f], sort_keys=True) for f in ("state", "control", "calib", "update")):
+        try:
+            names_w = set(symtab)
+            wsyms = dict(symtab)
+            for t in [t for m in named(warm["sensors"]).values() for t in named(m).values()]:
+                for n in tree_syms(t):
+                    wsyms.setdefault(n, ui.Symbol(n))
+            wcm, wpn, wsm, wsn = _args(wsyms, warm, ui)
+            python.compile(model, calibration_map=dict(wcm), config=cfg)
+            python.compile_ekf(model, process_noise=dict(wpn), sensor_models=wsm, sensor_noises=wsn, calibration_map=dict(wcm), config=cfg)
+            out["_warmed"] = ["accepted", "valid definition compiled first on the same ui.Model object"]
+        except Exception as e:
+            out["_warmed"] = ["refused", type(e).__name__ + ": " + str(e)[:120]]
 
     def attempt(name, fn):
         try:
@@ -89,9 +118,10 @@ def present(mods, sc, container_name="set"):
 
 def present_batch(mods, items):
     res = []
-    for sc, cont in items:
+    for it in items:
+        sc, cont = it[0], it[1]
         try:
-            res.append(present(mods, sc, cont))
+            res.append(present(mods, sc, cont, it[2] if len(it) > 2 else None))
         except Exception:
             res.append({"_harness_error": traceback.format_exc()[-800:]})
     return res
@@ -114,6 +144,7 @@ def run(ctx):
         seen.setdefault(sha(sc["def"]), sc)
     cases = list(seen.values())
     items = []
+    valid_of = {sc["base"]: sc["def"] for sc in cases if sc["valid"] and not sc["faults"]}
     for sc in cases:
         if sc["valid"]:
             for cont in ("set", "list", "tuple", "frozenset"):
@@ -122,6 +153,9 @@ def run(ctx):
             items.append((sc, "set"))
             if len(sc["faults"]) == 1:
                 items.append((sc, "list"))
+                if sc["base"] in valid_of:
+                    # history: the valid definition of the same base was compiled first on the SAME ui.Model object
+                    items.append((sc, "set", valid_of[sc["base"]]))
     ctx.log("TLC: %d states, %d distinct faulted/valid definitions -> %d presentations x 5 entry points" % (r.distinct, len(cases), len(items)))
     chunks = [items[i::ctx.cores] for i in range(ctx.cores)]
     chunks = [c for c in chunks if c]
@@ -131,7 +165,8 @@ def run(ctx):
     for c, (status, outs) in zip(chunks, res):
         if status != "ok":
             raise RuntimeError("C14 batch failed: %s %s" % (status, outs))
-        for (sc, cont), out in zip(c, outs):
+        for it, out in zip(c, outs):
+            sc, cont = it[0], it[1] + ("+same-model-object-after-a-valid-compile" if len(it) > 2 else "")
             if "_harness_error" in out:
                 ctx.dropped += 1
                 ctx.notes.append(out["_harness_error"][-300:])
